@@ -751,10 +751,12 @@ class FunTx:
                 a = args[0]
                 if a.ty == 'I': return Val('I', const=abs(a.const))
                 return Val('S', f'(abs_ O {tr.S(a)})')
-            if name in ('min', 'max') and len(args) == 2:
-                a, b = args
-                if a.ty == 'I' and b.ty == 'I': return Val('I', const=(min if name == 'min' else max)(a.const, b.const))
-                return Val('S', f'({name}2 O {tr.S(a)} {tr.S(b)})')
+            if name in ('min', 'max') and len(args) >= 2 and not kwargs:
+                # builtin max/min over positional arguments: keep the first, replace when a later one compares strictly better
+                if all(a.ty == 'I' for a in args): return Val('I', const=(min if name == 'min' else max)(a.const for a in args))
+                acc = tr.S(args[0])
+                for b in args[1:]: acc = f'({name}2 O {acc} {tr.S(b)})'
+                return Val('S', acc)
             if name == 'len':
                 a = args[0]
                 if a.ty in SEGN: return Val('I', const=SEGN[a.ty])
